@@ -1152,6 +1152,7 @@ CHECK_REPLAY_WINDOW:
 #  ifdef USE_SHA256
             case SHA256_HASH_SIZE:
                 psSha256PreInit(&md.u.sha256);
+                psSha256Init(&md.u.sha256);
                 break;
 #  endif
 #  ifdef USE_SHA384
@@ -1179,7 +1180,6 @@ CHECK_REPLAY_WINDOW:
                 {
 #  ifdef USE_SHA256
                 case SHA256_HASH_SIZE:
-                    psSha256Init(&md.u.sha256);
                     while (rc > 0)
                     {
                         psSha256Update(&md.u.sha256, tmp, 64);
